@@ -19,7 +19,7 @@ def run(check: Check) -> None:
     check.out_of_scope += ["operation sequences longer than 2 on formulas", "layers with non-int keys", "shapes outside the 9-shape menu"]
     pct = 1500 if thorough else 100
     fns = {f: [None] for f in ("lm_lookup", "lm_len_iter", "lm_write", "lm_write_len", "lm_delete", "lm_with_layers", "lm_with_layers_multi", "lm_named_lookup_consistent", "lm_layer_names", "st_map", "st_simplify", "st_update_merge")}
-    fns["st_simplify_deep"] = list(range(8))
+    fns["st_simplify_deep"] = list(range(16))
     fns["sf_ops"] = ch_c19.sf_shards(-4, 3, 7) if thorough else ch_c19.sf_shards(-3, 2, 3)
     fns["sf_more"] = [{"SHARD": k, "ORD": o, "R": (5 if thorough else 2), "NP": (7 if thorough else 3)} for k in range(6) for o in range(3)]
     for f in fns:
